@@ -31,7 +31,7 @@ def theorems_of(module: str, only: list[str] | None = None) -> list[str]:
 
 
 ANALYSER_PARTS = {"C04": ["C04a", "C04b"], "C05": ["C05a", "C05b"], "C06": ["C06a", "C06b"], "C07": ["C07a", "C07b"], "C15": ["C15a", "C15b"], "C13": ["C13a", "C13b"], "C14": ["C14b"], "C16": ["C16b"],
-                  "C03": ["C03a", "C03b"], "C02": ["C02a"], "C01": ["C01b"], "C08": ["C08b"], "C10": ["C10b"], "C11": ["C11b"], "C12": ["C12b"],
+                  "C03": ["C03a", "C03b"], "C02": ["C02a"], "C01": ["C01a", "C01b"], "C08": ["C08b"], "C10": ["C10b"], "C11": ["C11b"], "C12": ["C12b"],
                   "C18": ["C18a", "C18b"], "C09": ["C09b"]}
 """further theorem files of a property: `a` = the analyser half (mypy nodes -> API model), `b` = the whole-tool part
 (Model/Pipeline.lean: discovery, alias table, walk, API JSON text, generator, writes)"""
